@@ -2,7 +2,7 @@
 
 KINDS = ['pass', 'fail_output', 'fail_exc', 'all_skipped', 'partly_skipped', 'expected_exc', 'disabled', 'comment_only',
          'note_then_skip', 'skip_then_note', 'fail_directive_first', 'fail_compile_first', 'late_disable_word', 'warn_then_fail', 'warn_then_pass', 'requires_unmet_block',
-         'comment_bare_prompt', 'comment_bare_prompt_prose']
+         'comment_bare_prompt', 'comment_bare_prompt_prose', 'binds_then_fails', 'reads_leaked_name']
 # kinds used by the native-runner checks only (under pytest a first line '# pytest.skip' is a force-disable word)
 NATIVE_ONLY_KINDS = ['pytest_skip_comment']
 # kinds whose verdict is not fixed by construction but must be the SAME in both front ends: a doctest that needs a module which is
@@ -59,6 +59,12 @@ def doc_lines(kind, n):
     if kind == 'pytest_skip_comment':
         # for the native runner this first line is an ordinary comment: the doctest runs (and fails by output)
         return ['>>> # pytest.skip is honoured by the pytest plugin only %d' % n, ">>> print('k%d')" % n, 'WRONG%d' % n]
+    if kind == 'binds_then_fails':
+        # binds a name, then fails: the name dies with this doctest's namespace
+        return ['>>> leaked_name = %d' % (n + 1), ">>> print('a%d')" % n, 'b%d' % n]
+    if kind == 'reads_leaked_name':
+        # reads a name that only OTHER doctests of the module bind: NameError, whatever ran (and failed) before
+        return ['>>> assert leaked_name', ">>> print('r%d')" % n, 'r%d' % n]
     if kind == 'comment_bare_prompt':
         # remarks set apart by an empty prompt line: still nothing to run
         return ['>>> # first remark %d' % n, '>>>', '>>> # second remark %d' % n]
@@ -73,7 +79,7 @@ def doc_lines(kind, n):
 # verdict when the doctest is run
 VERDICT = {'pass': 'passed', 'fail_output': 'failed', 'fail_exc': 'failed', 'all_skipped': 'skipped',
            'partly_skipped': 'passed', 'expected_exc': 'passed', 'disabled': 'failed', 'comment_only': 'skipped',
-           'note_then_skip': 'skipped', 'skip_then_note': 'skipped', 'fail_directive_first': 'failed', 'fail_compile_first': 'failed', 'late_disable_word': 'passed', 'warn_then_fail': 'failed', 'warn_then_pass': 'passed', 'pytest_skip_comment': 'failed', 'requires_unmet_block': 'skipped', 'comment_bare_prompt': 'skipped', 'comment_bare_prompt_prose': 'skipped', 'chdir_then_pass': 'passed', 'chdir_then_fail': 'failed'}
+           'note_then_skip': 'skipped', 'skip_then_note': 'skipped', 'fail_directive_first': 'failed', 'fail_compile_first': 'failed', 'late_disable_word': 'passed', 'warn_then_fail': 'failed', 'warn_then_pass': 'passed', 'pytest_skip_comment': 'failed', 'requires_unmet_block': 'skipped', 'binds_then_fails': 'failed', 'reads_leaked_name': 'failed', 'comment_bare_prompt': 'skipped', 'comment_bare_prompt_prose': 'skipped', 'chdir_then_pass': 'passed', 'chdir_then_fail': 'failed'}
 
 
 def module_source(kinds, layout='functions'):
